@@ -103,6 +103,9 @@ var writeCmdPlay = &cobra.Command{
 		if err != nil {
 			return err
 		}
+		if err := wArgs.readable(); err != nil {
+			return err
+		}
 		outPortName, _ := cmd.Flags().GetString("port")
 		var buf bytes.Buffer
 		if err := wArgs.writeMIDITo(&buf); err != nil {
@@ -127,6 +130,9 @@ var writeCmdEvent = &cobra.Command{
 		}
 		defer out.Close()
 
+		if err := wArgs.readable(); err != nil {
+			return err
+		}
 		var buf bytes.Buffer
 		if err := wArgs.writeMIDITo(&buf); err != nil {
 			return err
@@ -227,6 +233,14 @@ type writeCmdArgs struct {
 	trackSet   *midix.TrackSetController
 	instrument string
 	program    uint8
+}
+
+// readable reports whether the written file can be read back (write event, write play).
+func (w writeCmdArgs) readable() error {
+	if n := w.trackSet.Set().Len(); n > midix.MaxReadableTracks {
+		return errorx.Invalid("%d tracks: at most %d can be read back", n, midix.MaxReadableTracks)
+	}
+	return nil
 }
 
 func (w writeCmdArgs) writeMIDITo(wr io.Writer) error {
